@@ -246,6 +246,8 @@ def rule_inverse_blocks(ctx: Ctx) -> None:
 
 
 def run(ctx: Ctx) -> None:
+    from ..rules import bitform as _bitform
+    _bitform.arm(ctx)
     rule_inverse_blocks(ctx)
     repo = ctx.repo
     rule_reverse_table(ctx)
@@ -277,6 +279,7 @@ def _swap_blocks(src: str) -> str:
 
 
 KNOCKOUTS = [
+    Knockout("prim-p-sign-or", TR, sub_nth("    tableau.phase = tableau.phase ^ multiply_columns(\n        tableau.table, tableau.table, qubit_position, n_qubits + qubit_position\n    )\n    # update the rest of the tableau\n    tableau.table = add_columns(", "    tableau.phase = tableau.phase ^ tableau.table[:, qubit_position]\n    # update the rest of the tableau\n    tableau.table = add_columns(", 0), "prim.formula", "phase_gate"),
     Knockout("replay-overwritten", RC, sub_once("    return transform.run_circuit(clifford_tableau, circuit, reverse=True)", "    clifford_tableau = transform.run_circuit(clifford_tableau, circuit, reverse=True)\n    clifford_tableau.stabilizer = stabilizer_tableau.table\n    return clifford_tableau"), "reverse.table", "edited before it is returned"),
     Knockout("cz-before-cnot", STABF, _swap_blocks, "inverse.blocks", "order of elimination passes"),
     Knockout("clifford-cache-without-signs", RC, sub_once("def clifford_from_stabilizer(stabilizer_tableau):", "_CT_CACHE = {}\n\n\ndef clifford_from_stabilizer_cached(stabilizer_tableau):\n    key = (stabilizer_tableau.n_qubits, stabilizer_tableau.table.tobytes())\n    if key not in _CT_CACHE:\n        _CT_CACHE[key] = clifford_from_stabilizer(stabilizer_tableau)\n    return _CT_CACHE[key].copy()\n\n\ndef clifford_from_stabilizer(stabilizer_tableau):"), "memo.sound", "key does not determine"),
